@@ -47,6 +47,7 @@ fn main() {
     vh::infra::watchdog::start(id, tier);
     let code = dispatch!(id, mode, tier, seed, third;
         "C01" => vh::props::c01::C01,
+        "C04" => vh::props::c04::C04,
     );
     std::process::exit(code);
 }
